@@ -746,7 +746,7 @@ def api_phases(ctx, emphasis):
         if not quick:
             groups.append(lifetime_walk("life/%s/h2x2x2" % alg, alg, [(4, 2), (ws[ai % 4], 2), (2, 2)], cyc[(ai + 2) % 4]))
             groups.append(lifetime_walk("life/%s/h5" % alg, alg, [(4, 5)], cyc[(ai + 3) % 4]))
-    return [{"tag": emphasis, "groups": groups, "trace_module": "TraceApi", "trace_cfg": "TraceApi.cfg",
+    return [{"tag": emphasis, "groups": groups, "trace_module": "TraceApi", "trace_cfg": "TraceApi.cfg", "tlc_timeout": 2400 if quick else 9000,
              "space": "behaviours of HssApi (TLC simulation, seed VERIF_SEED) + complete lifetimes under every callback plan"}]
 
 
